@@ -228,6 +228,16 @@ Example C02_ex_creation_at_a_funded_address :
   end.
 Proof. vm_compute. auto. Qed.
 
+(* C02_no_creation_domain_purchase above holds for ALL buyer / seller, equal ones included: when the owner buys its own name on
+   sale the asking price moves from the account to itself and only the rest of the offer (to the fee pool) leaves it *)
+Example C02_ex_owner_buys_its_own_name :
+  let l := ladd ∅ (bal 1 0) 1000 in
+  match effect_domain_purchase true 0 1 9 60 true 50 1 0 with
+  | Some ops => total 0 (run_tx l ops) = 1000 /\ lget (run_tx l ops) (bal 1 0) = 990 /\ lget (run_tx l ops) (feepool 9) = 10
+  | None => False
+  end.
+Proof. vm_compute. auto. Qed.
+
 (* a transaction that creates nothing does not raise the total; lifted to blocks / histories by C02_block_total_bound *)
 Theorem C02_no_creation_total : forall c l ops, no_creation ops -> total c (run_tx l ops) <= total c l.
 Proof. exact no_creation_total. Qed.
